@@ -98,7 +98,7 @@ func judgeGenerations(sc *SrvScenario, h *SrvHistory, res *core.Result, staleKin
 	// reload naming a path used before may legitimately be refused; if it reports success, the
 	// register oracle holds it to its word.
 	for _, o := range h.Ops {
-		if o.Op.Kind == "reload" && o.Done && !o.OK && o.Op.Fault == "" && o.Op.SamePath == 0 && !errors.Is(o.Err, db.ErrReloadTimeout) && o.Op.DelayMs <= sc.TimeoutMs {
+		if o.Op.Kind == "reload" && o.Done && !o.OK && o.Op.Fault == "" && o.Op.SamePath == 0 && !errors.Is(o.Err, db.ErrReloadTimeout) && o.Op.DelayMs <= sc.TimeoutMs && o.Err != errServerGone {
 			kind := "partial"
 			if o.Op.Full {
 				kind = "full"
@@ -290,7 +290,7 @@ func srvPopulation(sc *SrvScenario) string {
 
 func drawC05(rt *rapid.T, tier string) SrvScenario {
 	o := srvDrawOpts{backends: []string{"cdb", "cdb", "cdb", "cdb", "rdb1", "rdb2"}, maxClients: 4, maxQueries: 6, maxOps: 5,
-		faults: []string{"missing", "garbage", "nokey", "inject", "lowio"}}
+		faults: []string{"missing", "garbage", "nokey", "inject", "lowio"}, proc: 4}
 	if tier == "thorough" {
 		o.backends = []string{"cdb", "cdb", "rdb1", "rdb2"}
 		o.maxQueries = 8
@@ -308,6 +308,16 @@ func runC05(t *testing.T, sc SrvScenario, keep bool) *core.Result {
 	}
 	judgeGenerations(&sc, h, res, "stale-read")
 	judgeAgainstGeneration(&sc, h, res)
+	if sc.Proc {
+		res.Probe("whole_process_run")
+		// "a reload that fails leaves the server answering from the old generation as if nothing
+		// happened": a reload request that takes the watcher loop down takes the whole server down
+		// (Server.WatchControlDirAndReload shuts it down when the loop returns an error)
+		for _, wd := range h.WatcherDied {
+			res.Add("failed-reload-stops-server", "failed-reload-stops-server|"+strings.SplitN(wd, ":", 2)[0],
+				"a reload request that could not be honoured ended the watcher loop, upon which the server shuts itself down: "+wd)
+		}
+	}
 	res.Population = srvPopulation(&sc)
 	res.Nontrivial = res.Probes["query_overlaps_reload"] > 0 || res.Switches > 0
 	return res
